@@ -363,6 +363,92 @@ func c18(r *Report) {
 		}
 	})
 
+	r.Guard("C18.R2", "overlapping throttles are rejected: a throttle that ends after the next one starts, and an open-ended throttle that is not the last", func() {
+		gat := r.Use("trafficshape", "getActionsFromThrottles")
+		if gat == nil {
+			return
+		}
+		fromField := func(v ssa.Value, name string) bool {
+			return anyIn(w.backSlice(v, flowOpt{}), func(x ssa.Value) bool {
+				fa, y := x.(*ssa.FieldAddr)
+				return y && fieldObj(fa).Name() == name
+			})
+		}
+		rejects := func(b *ssa.BinOp) bool {
+			for _, ce := range branchesOn(b) {
+				errs, _, okp := returnValuesFrom(ce.True, 1)
+				if !okp || len(errs) == 0 {
+					continue
+				}
+				all := true
+				for _, e := range errs {
+					if isNilConst(e) {
+						all = false
+					}
+				}
+				if all {
+					return true
+				}
+			}
+			return false
+		}
+		cmpNext, openEnded := false, false
+		for _, in := range instrs(gat) {
+			b, ok := in.(*ssa.BinOp)
+			if !ok {
+				continue
+			}
+			switch b.Op {
+			case token.GTR, token.LSS, token.GEQ, token.LEQ:
+				if (fromField(b.X, "ByteEnd") && fromField(b.Y, "ByteStart") || fromField(b.Y, "ByteEnd") && fromField(b.X, "ByteStart")) && rejects(b) {
+					cmpNext = true
+				}
+			case token.EQL:
+				k, isK := constInt(b.Y)
+				if isK && k == -1 && fromField(b.X, "ByteEnd") && rejects(b) {
+					openEnded = true
+				}
+			}
+		}
+		r.Decide("path", "M/trafficshape.getActionsFromThrottles: a throttle reaching into the next one is rejected", cmpNext, "a comparison of ByteEnd with the next ByteStart whose true edge returns an error", "no comparison of a throttle's end with its successor's start leads to the rejection: overlapping throttles are accepted", gat.Pos())
+		r.Decide("path", "M/trafficshape.getActionsFromThrottles: an open-ended throttle before the last one is rejected", openEnded, "ByteEnd == -1 on a non-last throttle returns an error", "an open-ended throttle (end -1) that sorts before another throttle is accepted: it overlaps everything after it, and the configuration replaces the active shaping instead of being refused", gat.Pos())
+	})
+
+	r.Guard("C18.R1", "a connection is shaped by the configuration in force when it was accepted: the listener's settings are read when the connection is wrapped, not while it is used", func() {
+		// Latency() and Defaults() are consulted by GetTrafficShapedConn (and the
+		// configuration handler) only: nothing reachable from a connection's Read / Write /
+		// ReadFrom / WriteTo asks the listener again
+		ct := w.Named("trafficshape", "Conn")
+		if ct == nil {
+			r.Undecided("M/trafficshape.Conn", "UNRESOLVED")
+			return
+		}
+		getters := map[string]bool{"(*M/trafficshape.Listener).Latency": true, "(*M/trafficshape.Listener).Defaults": true}
+		n := 0
+		for _, mn := range []string{"Read", "Write", "ReadFrom", "WriteTo"} {
+			m := w.method(ct, mn)
+			if m == nil {
+				continue
+			}
+			n++
+			bad := ""
+			var pos token.Pos = m.Pos()
+			for _, g := range w.staticReach(m) {
+				r.Touch(g)
+				for _, c := range calls(g) {
+					if getters[calleeName(c)] {
+						bad = calleeName(c) + " in " + fnName(g)
+						pos = c.Pos()
+					}
+				}
+			}
+			r.Decide("callgraph", "(*M/trafficshape.Conn)."+mn+" does not consult the listener's current settings", bad == "", "no call of Listener.Latency / Listener.Defaults in its static call closure", "the I/O path of a connection reads the listener's current settings ("+short(bad)+"): a connection accepted before a reconfiguration is shaped by the new values", pos)
+		}
+		if n == 0 {
+			r.Undecided("M/trafficshape.Conn I/O methods", "UNRESOLVED")
+		}
+	})
+
 	r.Guard("C18.R3", "in the shaped write path every manually taken lock is released before returning, sleeping, or calling back into code that locks", func() {
 		may := lockStatesMay(wr)
 		n := 0
@@ -491,6 +577,86 @@ func c18(r *Report) {
 		}
 		r.Paths++
 		r.Decide("path", "(*M.Proxy).handle: shaping context reset per response", ok, "Context = &trafficshape.Context{} precedes the URL matching and the write on every path", "a response that matches no shape can be written with its predecessor's shaping context", ta.Pos())
+
+		// the context of a matching response is what the shape says: taken for a valid single
+		// range only, positioned at the range start, with the next action and the throttle
+		// looked up at that byte, and the bucket set to the throttle's bandwidth when the
+		// response starts inside a throttled range
+		var lit *ssa.Alloc
+		for _, a := range allocsOf(handle, M+"/trafficshape.Context") {
+			if len(litFieldStores(a)["Shaping"]) > 0 {
+				lit = a
+			}
+		}
+		if lit == nil {
+			r.Undecided("(*M.Proxy).handle: shaping context literal", "UNRESOLVED")
+			return
+		}
+		fs := litFieldStores(lit)
+		isRS := func(v ssa.Value) bool { return isCallValue(v, "M/proxyutil.GetRangeStart") }
+		from := func(v ssa.Value, pred func(ssa.Value) bool) bool {
+			return anyIn(w.backSlice(v, flowOpt{}), pred)
+		}
+		// guard
+		rel, adm0, admNeg := false, false, false
+		for _, ce := range ctrlEdges(lit.Block()) {
+			if rl, a := constCmpAdmits(ce, isRS, -1); rl {
+				rel = true
+				admNeg = admNeg || a
+			}
+			if rl, a := constCmpAdmits(ce, isRS, 0); rl {
+				adm0 = a
+			}
+		}
+		r.Decide("path", "(*M.Proxy).handle: shaping applies to a valid single range only", rel && adm0 && !admNeg, "the context literal is dominated by a test of GetRangeStart that admits 0 and excludes -1", "the shaping context is also built when GetRangeStart reports -1 (an invalid or multi-part Range), or not for a range starting at byte 0: offsets are then counted from -1 and every action fires one byte off", lit.Pos())
+		for _, f := range []string{"RangeStart", "ByteOffset"} {
+			okF := len(fs[f]) == 1 && isRS(fs[f][0].Val)
+			r.Decide("flow", "(*M.Proxy).handle: Context."+f+" is the response's range start", okF, "GetRangeStart(res)", "Context."+f+" is not the range start: close actions and throttles are positioned relative to the wrong byte", lit.Pos())
+		}
+		okHL := len(fs["HeaderLen"]) == 1 && from(fs["HeaderLen"][0].Val, func(v ssa.Value) bool { return isExtractOfCall(v, "net/http/httputil.DumpResponse") })
+		if !okHL && len(fs["HeaderLen"]) == 1 {
+			// int64(len(dump))
+			if cv, isCv := fs["HeaderLen"][0].Val.(*ssa.Convert); isCv {
+				if c, isC := cv.X.(*ssa.Call); isC {
+					if b, isB := c.Call.Value.(*ssa.Builtin); isB && b.Name() == "len" {
+						okHL = from(c.Call.Args[0], func(v ssa.Value) bool { return isExtractOfCall(v, "net/http/httputil.DumpResponse") })
+					}
+				}
+			}
+		}
+		r.Decide("flow", "(*M.Proxy).handle: Context.HeaderLen is the length of the response head", okHL, "len(httputil.DumpResponse(res, false))", "the head length the byte counting skips is not the dumped head's: body offsets are counted from the wrong place", lit.Pos())
+		for _, pr := range [][2]string{{"NextActionInfo", "(*M/trafficshape.Conn).GetNextActionFromByte"}, {"ThrottleContext", "(*M/trafficshape.Conn).GetCurrentThrottle"}} {
+			okL := false
+			for _, in := range instrs(handle) {
+				st, isSt := in.(*ssa.Store)
+				if !isSt {
+					continue
+				}
+				fa, isFa := st.Addr.(*ssa.FieldAddr)
+				if !isFa || fieldObj(fa).Name() != pr[0] || namedOf(fa.X.Type()) != "Context" {
+					continue
+				}
+				if c, isC := st.Val.(*ssa.Call); isC && calleeName(c) == pr[1] && len(c.Call.Args) == 2 && isRS(c.Call.Args[1]) {
+					okL = true
+				}
+			}
+			r.Decide("flow", "(*M.Proxy).handle: Context."+pr[0]+" is looked up at the range start", okL, short(pr[1])+"(rangeStart)", "the "+pr[0]+" of a response is not looked up at its first byte: a response starting inside (or after) a throttle or action is shaped as if it started at byte 0", lit.Pos())
+		}
+		// SetCapacity(ThrottleContext.Bandwidth) on the ThrottleNow edge
+		okTN := false
+		for _, c := range calls(handle, "(*M/trafficshape.Bucket).SetCapacity") {
+			bw := from(c.Common().Args[1], func(v ssa.Value) bool { fa, y := v.(*ssa.FieldAddr); return y && fieldObj(fa).Name() == "Bandwidth" })
+			guarded := false
+			for _, ce := range ctrlEdges(c.Block()) {
+				if from(ce.If.Cond, func(v ssa.Value) bool { fa, y := v.(*ssa.FieldAddr); return y && fieldObj(fa).Name() == "ThrottleNow" }) && ce.Taken {
+					guarded = true
+				}
+			}
+			if bw && guarded {
+				okTN = true
+			}
+		}
+		r.Decide("path", "(*M.Proxy).handle: a response that starts inside a throttle is throttled from its first byte", okTN, "WriteBucket.SetCapacity(ThrottleContext.Bandwidth) on the ThrottleNow edge", "the bucket keeps its previous capacity when the response starts inside a throttled range: that throttle adds no delay", lit.Pos())
 	})
 
 	r.Guard("C18.R6", "a close action stops the write: the error returned is ErrForceClose and nothing more is written", func() {
